@@ -5,6 +5,7 @@ dyn_array.c / gc.c / emitted nl_array_slice) vs the extracted models on generate
 End to end: tools/props/c20_native.py (native programs built by nanoc with a sanitizing cc)."""
 import os, json, hashlib
 import vlib
+import c20_native
 
 KINDS = {1: 'i', 2: 'f', 3: 's', 4: 'o', 5: 'a', 8: 'b'}        # ElementType code -> typed API letter
 ALLK = [1, 2, 3, 4, 5, 6, 7, 8]
@@ -279,6 +280,125 @@ def dyn_crash_cases(ck, probe, ref):
     return seen
 
 
+# ------------------------------------------------------------------------------------------------ gc.c
+GC_TYPES = [2, 4, 5]          # STRING, CLOSURE, OPAQUE (no payload the destructor would walk; arrays go through dyn_probe)
+GC_WITNESSES = [
+    ['reset', 'alloc 8 2', 'release 1', 'release 1', 'managed 1'],                                   # double release: silent
+    ['reset', 'alloc 8 2', 'release 1', 'alloc 8 2', 'release 1', 'managed 2', 'retainsafe 2'],      # stale release after address reuse
+]
+
+
+def gen_gc_history(rng, maxlen, stale, stats):
+    lines = ['reset']
+    cnt = []                      # python's view of each handle's reference count (exact when there are no stale releases)
+    L = rng.randrange(5, maxlen + 1)
+    while len(lines) < L:
+        r = rng.random()
+        live = [i + 1 for i, c in enumerate(cnt) if c > 0]
+        if r < 0.28 or not cnt:
+            lines.append('alloc %d %d' % (rng.choice([0, 1, 8, 8, 24, 24, 100, 4096]), rng.choice(GC_TYPES))); cnt.append(1); stats['alloc'] += 1
+        elif r < 0.45 and live:
+            h = rng.choice(live)
+            if stale: lines.append('retainsafe %d' % h)
+            else: lines.append('retain %d' % h)
+            cnt[h - 1] += 1; stats['retain'] += 1
+        elif r < 0.80 and live:
+            h = rng.choice(live); lines.append('release %d' % h); cnt[h - 1] -= 1; stats['release'] += 1
+            if cnt[h - 1] == 0: stats['release_to_zero'] += 1
+        elif r < 0.86:
+            lines.append('managed %d' % rng.randrange(0, len(cnt) + 1)); stats['managed'] += 1
+        elif r < 0.89:
+            lines.append('collect'); stats['collect'] += 1
+        elif r < 0.92:
+            lines.append(rng.choice(['retain 0', 'release 0', 'retainsafe 0'])); stats['null_ops'] += 1
+        elif stale:
+            dead = [i + 1 for i, c in enumerate(cnt) if c <= 0]
+            if dead:
+                h = rng.choice(dead); lines.append(rng.choice(['release %d', 'release %d', 'retainsafe %d']) % h); stats['stale_ops'] += 1
+    stats['gc_histories'] += 1
+    return lines
+
+
+def gc_translate(lines, impl):
+    """handles -> canonical address ids as reported by the probe ("ptr <id>")"""
+    ids = []
+    out = []
+    for l, a in zip(lines, impl):
+        f = l.split()
+        if f[0] == 'reset':
+            ids = []; out.append('gnew')
+        elif f[0] == 'alloc':
+            aid = int(a.split()[1]) if a.startswith('ptr ') else 0
+            ids.append(aid); out.append('galloc %d %s %s' % (aid, f[1], f[2]))
+        elif f[0] == 'collect':
+            out.append('gcollect')
+        else:
+            h = int(f[1]); out.append('g%s %d' % (f[0], ids[h - 1] if 1 <= h <= len(ids) else 0))
+    return out
+
+
+def gc_correspondence(ck, ref):
+    from collections import Counter
+    stats = Counter()
+    rng = ck.rng
+    nh, maxlen = (400, 5000) if ck.thorough else (120, 200)
+    hist = [list(w) for w in GC_WITNESSES]
+    for i in range(nh):
+        hist.append(gen_gc_history(rng, maxlen if i % 10 == 0 else min(maxlen, 200), stale=(i % 2 == 1), stats=stats))
+    lines = [l for h in hist for l in h]
+    engines = [('gc_probe(asan)', ck.probe('gc_probe.c', 'asan'), ASAN_ENV),
+               ('gc_probe(asan,no-quarantine)', ck.probe('gc_probe.c', 'asan'),
+                dict(ASAN_ENV, ASAN_OPTIONS=ASAN_ENV['ASAN_OPTIONS'] + ':quarantine_size_mb=0:thread_local_quarantine_size_kb=0')),
+               ('gc_probe(plain)', ck.probe('gc_probe.c', 'plain'), dict(os.environ))]
+    reuse = {}
+    for name, probe, env in engines:
+        rc, o, e = vlib.sh([probe], input=('\n'.join(lines) + '\n').encode(), timeout=900, env=env)
+        impl = o.splitlines()
+        sl = san_lines(e)
+        if rc != 0 or sl or len(impl) != len(lines):
+            k = len(impl)
+            ck.fail('c20:gc:crash:' + name, 'gc_probe died / sanitizer report (rc=%s) at line %d "%s": %s' % (rc, k, lines[k] if k < len(lines) else '?', '; '.join(sl[:2])),
+                    dict(part='gc', engine=name, history=lines[max(0, k - 40):k + 1], stderr=e[-3000:]))
+        mlines = gc_translate(lines[:len(impl)], impl)
+        model = vlib.run_lines(ref, mlines, timeout=900)
+        # address reuse actually observed on this engine?
+        n_reuse = 0; seen = set()
+        for l, a in zip(lines, impl):
+            if l == 'reset': seen = set()
+            if a.startswith('ptr '):
+                i = int(a.split()[1]); n_reuse += i in seen; seen.add(i)
+        reuse[name] = n_reuse
+        pos = 0
+        bad = 0
+        for h in hist:
+            hi = impl[pos:pos + len(h)]; hm = model[pos:pos + len(h)]
+            ck.count((name, tuple(h)), len(h) >= 5 and any(' n=0 ' in x for x in hm[2:]), n=len(hi))
+            for j, (a, m) in enumerate(zip(hi, hm)):
+                if a != m:
+                    bad += 1
+                    ck.fail('c20:gc:' + hashlib.sha256((name + '\n'.join(h[:j + 1])).encode()).hexdigest()[:12],
+                            'gc.c differs from the model on %s after "%s": impl=%s model=%s' % (name, h[j], a[:200], m[:200]),
+                            dict(part='gc', engine=name, history=h[:j + 1], model_lines=mlines[pos:pos + j + 1], expected_model=m, observed_impl=a,
+                                 correspondence='gc_probe vs nvref_c20'))
+                    break
+            pos += len(h)
+            if bad > 5: break
+        if any('GINV-BROKEN' in m for m in model):
+            k = next(i for i, m in enumerate(model) if 'GINV-BROKEN' in m)
+            ck.fail('c20:gc:inv-broken', 'extracted gc model: invariant check fails after "%s"' % mlines[k], dict(part='gc', line=mlines[k], model=model[k]))
+        # the two witnesses of C20_gc_double_release_asserted_refuted, on the real code
+        w0 = impl[:len(GC_WITNESSES[0])]
+        stats['witness_double_release_silent:' + name] = (w0[3:5] if len(w0) >= 5 else w0)
+        w1 = impl[len(GC_WITNESSES[0]):len(GC_WITNESSES[0]) + len(GC_WITNESSES[1])]
+        stats['witness_stale_release_after_reuse:' + name] = (w1[3:6] if len(w1) >= 6 else w1)
+    k = next((i for i, l in enumerate(lines) if l.startswith('release') and i > 20), 3)
+    ck.sample(dict(op=lines[k], impl=impl[k] if k < len(impl) else None, model=model[k] if k < len(model) else None, engine=name))
+    stats['gc_lines'] = len(lines)
+    stats['address_reuse_events'] = reuse
+    return {k: v for k, v in stats.items()}
+
+
+
 def run(ck):
     b = ck.build('plain')
     ck.gen(['gen_rtparams'])
@@ -288,33 +408,62 @@ def run(ck):
     st = dyn_correspondence(ck, probe, ref)
     crashes = dyn_crash_cases(ck, probe, ref)
     ck.extra['dyn'] = dict(input_distribution=st, crash_cases=crashes)
+    n1 = ck.cov['evaluations']
+    ck.extra['gc'] = gc_correspondence(ck, ref)
+    n2 = ck.cov['evaluations']
+    rule_native = c20_native.native(ck, b)
+    ck.extra['evaluations_by_part'] = dict(dyn=n1, gc=n2 - n1, native=ck.cov['evaluations'] - n2)
     ck.extra['exhaustive'] = False
     ck.cov['rule'] = ('dyn: generated histories over all 8 element kinds (typed push/pop/get/set, remove_at, clear, reserve, clone, emitted '
                       'nl_array_slice, struct push/get/set/pop incl. auto-promotion, wrong-type and wrong-size calls), indices on both sides of '
                       'every bound, lengths driven across the growth points 8/9/16/17/32/33; state (kind, elem_size, length, capacity, contents) '
-                      'compared after every operation; non-trivial = history of >= 4 ops with a non-empty array; distinct = distinct history')
+                      'compared after every operation; non-trivial = history of >= 4 ops with a non-empty array; distinct = distinct history.  '
+                      'gc: generated alloc/retain/release/is_managed/collect histories (well-behaved with raw retain; and with stale releases of freed '
+                      'handles + guarded retain) on three engines (ASan, ASan without quarantine = address reuse, plain build); list order, reference '
+                      'counts, set membership and statistics compared after every operation; non-trivial = some object released to zero.  '
+                      'native: ' + (rule_native or ''))
     ck.trusted += ['translator tools/gen/dump_rtparams.c + gen_rtparams.py (constants measured by calling dyn_array.c; text of nl_array_slice taken from generate_math_utility_builtins)',
                    'extraction: ExtrOcamlBasic only; extract/nvio.ml, nvio_z.ml, c20_driver.ml',
-                   'probes/dyn_probe.c (values passed as raw 64-bit patterns; string/array elements are opaque pointers, never dereferenced by dyn_array.c)']
-    ck.assumptions += ['malloc/realloc succeed for requests up to 2^20 cells (growth is assumed to succeed); above that the model answers Oom and the history is not compared further',
+                   'probes/dyn_probe.c (values passed as raw 64-bit patterns; string/array elements are opaque pointers, never dereferenced by dyn_array.c)',
+                   'probes/gc_probe.c (#includes gc.c to read the private gc_state; allocation addresses are reported by the probe and fed to the model)',
+                   'tools/props/c20_native.py (program generator with a Python model of the expected stdout; cc -fsanitize=address,undefined,float-cast-overflow)']
+    ck.assumptions += ['gc model: objects without children (gc_struct fields, the element walk of gc_mark and finalizers are not modelled; the native runs exercise them); fewer than 2^32 retains per object; the 256 MB auto-collection threshold is not reached in the probe',
+                       'the ARC/cleanup code emitted by the transpiler is not modelled: its safety is exhibited only by the sanitizer runs of generated native programs',
+                       'malloc/realloc succeed for requests up to 2^20 cells (growth is assumed to succeed); above that the model answers Oom and the history is not compared further',
                        'little-endian host, 64-bit pointers; bool is one byte holding 0/1',
                        'struct elements of 1..255 bytes (elem_size is a uint8_t: a struct of >= 256 bytes is refused by assert, size 0 is outside the model)',
                        'dyn_array_reserve / new_with_capacity with capacity*elem_size >= 2^63 is undefined (signed overflow, confirmed under UBSan) and outside the domain: the size is caller-controlled and no emitted code calls these']
 
 
 def replay(ck, d):
+    if d.get('key', '').startswith('c20:native:') or 'program' in d:
+        ck.build('plain')
+        return c20_native.replay_native(ck, d)
     ck.build('plain'); ck.gen(['gen_rtparams'])
     ref = ck.nvref('c20')
-    probe = ck.probe('dyn_probe.c', 'asan', extra=probe_extra())
-    if d.get('part', 'dyn').startswith('dyn'):
-        h = d.get('history') or [d.get('line')]
-        rc, impl, err = run_probe(probe, h, timeout=60)
-        model = vlib.run_lines(ref, h)
-        for l, a, m in zip(h, impl + ['<died>'] * len(h), model):
-            print('%-40s impl : %s\n%-40s model: %s' % (l[:40], a[:160], '', m[:160]))
-        print('rc=%s' % rc); print('\n'.join(san_lines(err)))
-        same = rc == 0 and impl == model
+    if d.get('part') == 'gc':
+        variant = 'plain' if 'plain' in d.get('engine', '') else 'asan'
+        env = dict(os.environ) if variant == 'plain' else dict(ASAN_ENV)
+        if 'no-quarantine' in d.get('engine', ''):
+            env['ASAN_OPTIONS'] += ':quarantine_size_mb=0:thread_local_quarantine_size_kb=0'
+        probe = ck.probe('gc_probe.c', variant)
+        h = d.get('history') or []
+        rc, o, e = vlib.sh([probe], input=('\n'.join(h) + '\n').encode(), timeout=60, env=env)
+        impl = o.splitlines()
+        model = vlib.run_lines(ref, gc_translate(h[:len(impl)], impl))
+        for l, a, m in zip(h, impl, model):
+            print('%-16s impl : %s\n%-16s model: %s' % (l, a[:160], '', m[:160]))
+        print('rc=%s' % rc); print('\n'.join(san_lines(e)))
+        same = rc == 0 and impl == model and len(impl) == len(h)
         print('REPRODUCED' if not same else 'not reproduced')
         return 0 if same else 1
-    print('unknown replay part', d.get('part'))
-    return 1
+    probe = ck.probe('dyn_probe.c', 'asan', extra=probe_extra())
+    h = d.get('history') or [d.get('line')]
+    rc, impl, err = run_probe(probe, h, timeout=60)
+    model = vlib.run_lines(ref, h)
+    for l, a, m in zip(h, impl + ['<died>'] * len(h), model):
+        print('%-40s impl : %s\n%-40s model: %s' % (l[:40], a[:160], '', m[:160]))
+    print('rc=%s' % rc); print('\n'.join(san_lines(err)))
+    same = rc == 0 and impl == model
+    print('REPRODUCED' if not same else 'not reproduced')
+    return 0 if same else 1
